@@ -439,6 +439,36 @@ def sgpr(S, n, M, m, diag_corr, what):
     S.prove_eq(cov_t, Cref, "SGPR predictive covariance = K** - Q*x (Q_xx[+corr] + s2 I)^-1 Qx*")
 
 
+def kiss_dynamic_grid(S, training):
+    """GridInterpolationKernel WITHOUT explicit grid bounds re-fits its grid when inputs fall outside: after the re-fit the kernel
+       equals a fresh kernel (same hyper-parameters) evaluated on those inputs - the cached grid covariance follows the grid"""
+    def mk():
+        return K.GridInterpolationKernel(K.RBFKernel(), grid_size=8, num_dims=1)
+    k = mk()
+    for p in k.parameters():
+        p.requires_grad_(False)
+    declare_params(S, k, "p_", scale=0.3)
+    x1 = torch.tensor([[0.1], [0.45], [0.8]])
+    x2 = torch.tensor([[-1.3], [0.2], [2.4], [1.1]])
+    k.train(training)
+    with S.mode(), gpytorch.settings.use_toeplitz(False):
+        first = dense(k(x1, x1))
+        second = dense(k(x2, x2))
+        cross = dense(k(x2[:2], x1))  # (inside the current grid: no re-fit)
+        f1, f2 = mk(), mk()
+        for f in (f1, f2):
+            with torch.no_grad():
+                for (na, pa), (nb, pb) in zip(k.named_parameters(), f.named_parameters()):
+                    pb.copy_(pa)
+            f.train(training)
+        want1 = as_sym_arr(SH.get(dense(f1(x1, x1))))
+        want2 = as_sym_arr(SH.get(dense(f2(x2, x2))))
+        want3 = as_sym_arr(SH.get(dense(f2(x2[:2], x1))))
+    S.prove_eq(first, want1, "first evaluation = fresh kernel")
+    S.prove_eq(second, want2, "evaluation after the grid was re-fitted = fresh kernel on those inputs")
+    S.prove_eq(cross, want3, "evaluation inside the re-fitted grid = fresh kernel that was fitted to the same inputs")
+
+
 def sgpr_history(S, ops):
     """the inducing-point kernel's caches (K_zz, its inverse root) follow the parameters through a history (see C03.history_sgpr)"""
     from .C03 import history_sgpr
@@ -466,6 +496,8 @@ def scenarios(tier, seed):
     add("sgpr", n=2, M=1, m=1, diag_corr=True, what="predict")
     for ops in (["P", "O"], ["P", "L"]) + ((["P", "T", "O"], ["P", "E", "L"], ["O", "P", "L"]) if tier != "quick" else ()):
         add("sgpr_history", ops=ops)
+    add("kiss_dynamic_grid", training=False)
+    add("kiss_dynamic_grid", training=True)
     add("rff", what="kernel")
     add("rff", what="predict", d=1, D=1)
     add("kiss_model", fantasy=False, fpv=False)
